@@ -118,9 +118,82 @@ def run_faults(pid, tier, theorems, imports, targets):
     if mism:
         detail += '; %d harness/model mismatches, first: %s' % (len(mism), mism[0][1][:300])
     chk.oblige('trace-validation:fault-injection', not mism, detail)
+    window_faults(chk, tier, ['reopen', 'flush', 'compact', 'reopen-reuse'])
     chk.assumptions += ['faults are injected at the libc boundary of calls on files of the database directory (the info log is excluded)',
                         'a failed write(2) writes nothing, or half of its bytes in partial mode']
     return chk.finish()
+
+
+WINDOWS = {
+    # name: (what the window holds, lines run while the fault is armed)
+    'reopen': lambda db, opts: ['close', 'open %s %s' % (db, opts)],
+    'flush': lambda db, opts: ['flushmem'],
+    'compact': lambda db, opts: ['compact 0 * *', 'compact 1 * *', 'compact 2 * *'],
+    'reopen-reuse': lambda db, opts: ['close', 'open %s %s' % (db, opts), 'close', 'open %s %s' % (db, opts)],
+}
+
+
+def window_faults(chk, tier, windows, tags=None, label='window-faults'):
+    """EVERY intercepted system call of a window (reopen = recovery + MANIFEST roll-over + CURRENT switch; memtable flush;
+    manual compaction) fails in turn, for a few error kinds: a systematic enumeration, not a sample.  After the fault is
+    cleared the database must open, hold every acknowledged write, and kill images taken at the end must recover."""
+    import proto
+    wl_bin = vlib.build_harness('wl', 'asan', exclude=['db_impl.c'])
+    rng = Rng(chk.seed).fork(label)
+    nh = 2 if tier == 'quick' else 12
+    jobs = []
+    for wname in windows:
+        for h in range(nh):
+            hr = rng.fork('%s%d' % (wname, h))
+            opts = hr.choice(['wbuf=65536', 'wbuf=65536 reuse=1', 'wbuf=65536 paranoid=1']) if wname != 'reopen-reuse' else 'wbuf=65536 reuse=1'
+            keys = [b'k%03d' % i for i in range(16)]
+            pre = ['open @DB@ %s' % opts]
+            sv = hr.below(1 << 20)
+            for r in range(hr.range(1, 3)):
+                for i in range(hr.range(3, 10)):
+                    pre.append('put %s @%d~%d%s' % (proto.arg(hr.choice(keys)), sv + 17 * r + i, hr.range(50, 9000), ' sync' if hr.chance(1, 4) else ''))
+                if hr.chance(2, 3):
+                    pre.append('flushmem')
+            for i in range(hr.range(1, 6)):
+                pre.append('put %s @%d~%d' % (proto.arg(hr.choice(keys)), sv + 100 + i, hr.range(50, 3000)))     # left in the log / memtable
+            body = WINDOWS[wname]('@DB@', opts) + ['put %s @%d~%d' % (proto.arg(hr.choice(keys)), sv + 200, 777), 'get %s' % proto.arg(keys[0])]
+            tail = ['ensureopen @DB@ %s' % opts, 'put %s @%d~%d sync' % (proto.arg(hr.choice(keys)), sv + 300, 99)] + ['get %s' % proto.arg(k) for k in keys]
+            base = _one_fault_run((wl_bin, pre, body, tail, -1, 28, 0, 0, '', h))
+            if base['problems']:
+                chk.violation('%s: fault-free baseline run already fails: %s' % (label, base['problems'][0][:300]), {'script': base['lines'], 'problems': base['problems'][:5]})
+                continue
+            K = base['calls']
+            modes = [(5, 0, 0), (28, 1, 0)] if tier == 'quick' else [(5, 0, 0), (28, 1, 0), (28, 0, 2), (24, 0, 0), (5, 1, 1)]
+            for k in range(K):
+                for (errno, persistent, partial) in modes:
+                    jobs.append((wl_bin, pre, body, tail, k, errno, persistent, partial, '', '%s/%d' % (wname, h)))
+    results = []
+    with cf.ThreadPoolExecutor(vlib.NPROC) as ex:
+        for r in ex.map(_one_fault_run, jobs):
+            results.append(r)
+    nv = 0
+    mism = []
+    fired = 0
+    for r in results:
+        fired += 1 if r['fired'] else 0
+        chk.note_case((label, r['idx'], r['k'], r['errno'], r['persistent'], r['partial']), r['fired'] > 0)
+        for p in r['problems']:
+            m = re.match(r'(MISMATCH|VIOLATION)\[([^\]:]*)', p)
+            tag = m.group(2) if m else 'other'
+            if p.startswith('VIOLATION') and (tags is None or tag in tags or tag in ('fault', 'other')):
+                if nv < 3:
+                    chk.violation('%s: %s (window %s, call #%d errno=%d persistent=%d partial=%d)' % (label, p[:400], r['idx'], r['k'], r['errno'], r['persistent'], r['partial']),
+                                  {'script': r['lines'], 'problems': r['problems'][:5]})
+                nv += 1
+            elif not p.startswith('VIOLATION'):
+                mism.append((r, p))
+    chk.rules.append('%s: windows %s; every intercepted call of the window fails in turn (EIO one-shot, ENOSPC persistent%s); afterwards the fault is cleared, the database '
+                     'is opened if need be, written to and read; kill images at the end and after close are recovered; non-trivial = the fault fired' % (label, list(windows), '' if tier == 'quick' else ', short write then ENOSPC, EMFILE, partial EIO persistent'))
+    chk.extra.setdefault('window_fault_runs', {})[label] = {'runs': len(results), 'fired': fired}
+    detail = '%d runs, fault fired in %d' % (len(results), fired)
+    if mism:
+        detail += '; %d harness/model mismatches, first: %s' % (len(mism), mism[0][1][:300])
+    chk.oblige('trace-validation:' + label, not mism, detail)
 
 
 def replay(pid, path):
